@@ -81,6 +81,8 @@ type Env struct {
 	nowSeq   int
 	sfMs     int64
 	sfUsed   bool
+	written  map[string]int // bytes written per public-call tag
+	nTorn    int // files that lost a non-empty tail in the last power-loss crash
 	errs     map[string]Iface
 	frozen   bool // after a crash: FS of the dead process is read-only for late threads
 }
@@ -364,6 +366,10 @@ func (e *Env) write(of *openFile, b []Value) Value {
 	of.pos = off + len(b)
 	if len(b) > 0 {
 		f.unsynced = append(f.unsynced, writeRange{off, len(b), e.tag})
+		if e.written == nil {
+			e.written = map[string]int{}
+		}
+		e.written[e.tag] += len(b)
 	}
 	e.log(FSOp{Kind: "write", Path: of.path, Off: off, N: len(b)})
 	return Tuple{uint64(len(b)), Iface{}}
@@ -588,6 +594,7 @@ func (it *Interp) ioEOF() Iface {
 func (e *Env) applyCrash(powerLoss bool) {
 	e.crashed = true
 	e.crashArm = false
+	e.nTorn = 0
 	e.locks = map[string]*flockState{}
 	paths := make([]string, 0, len(e.nodes))
 	for p := range e.nodes {
@@ -613,6 +620,9 @@ func (e *Env) applyCrash(powerLoss bool) {
 			e.it.path.Assume(st.And(st.Cmp(smt.OpUle, st.Const(32, uint64(f.syncedLen)), t), st.Cmp(smt.OpUle, t, st.Const(32, uint64(f.size)))))
 			cut := int(e.it.path.Concretize(t, "power-loss cut of "+p))
 			e.it.path.notes["cut "+p] = fmt.Sprintf("%d of %d (synced %d)", cut, f.size, f.syncedLen)
+			if cut < f.size {
+				e.nTorn++
+			}
 			for i := cut; i < f.size; i++ {
 				f.cells[i] = uint64(0)
 			}
@@ -642,6 +652,19 @@ func (e *Env) snapshot(m smt.Model) map[string][]byte {
 			}
 		}
 		out[p] = b
+	}
+	return out
+}
+
+// copyCells snapshots the FS: path -> copy of the file's cells (nil for directories, keyed with a trailing slash).
+func (e *Env) copyCells() map[string][]Value {
+	out := map[string][]Value{}
+	for p, n := range e.nodes {
+		if n.isDir {
+			out[p+"/"] = nil
+			continue
+		}
+		out[p] = append([]Value{}, n.file.cells[:n.file.size]...)
 	}
 	return out
 }
